@@ -72,7 +72,8 @@ fn percent_decode(s: &str) -> String {
 }
 
 impl C18 {
-    /// `kind`: j = profile.json, z = profile.json.gz, d = profile.json deleted after start-up,
+    /// `kind`: j = profile.json, z = prof-x.json.gz, d = profile.json deleted after start-up,
+    /// e = profile.json with `PROFILER_URL=http://localhost:4242/` in the environment,
     /// anything else = a throw-away server for the token statistics.
     fn start_server(&self, kind: &str) -> Server {
         let n = {
@@ -83,7 +84,9 @@ impl C18 {
         let dir = tmp_dir().join(format!("s{n}"));
         std::fs::create_dir_all(&dir).unwrap();
         let (path, bytes) = if kind == "z" {
-            let p = dir.join("profile.json.gz");
+            // a basename of its own: the URL path is `/profile.json` whatever the file is called, and
+            // nothing is served under the file's name (probed as /prof-x.json.gz, /prof-x.json)
+            let p = dir.join("prof-x.json.gz");
             let mut enc = flate2::write::GzEncoder::new(Vec::new(), flate2::Compression::default());
             enc.write_all(PROFILE_JSON.as_bytes()).unwrap();
             let gz = enc.finish().unwrap();
@@ -95,7 +98,13 @@ impl C18 {
         let base = 21000 + (std::process::id() % 300) as u16 * 100;
         let mut cmd = Command::new(samply_bin());
         cmd.arg("load").arg(&path).arg("--no-open").arg("--port").arg(format!("{base}+"));
-        cmd.env_remove("PROFILER_URL");
+        if kind == "e" {
+            // the documented override of the profiler origin (server.rs:79-83): only the landing page's
+            // links change; requests with `Origin: http://localhost:4242` are in the header pool
+            cmd.env("PROFILER_URL", "http://localhost:4242/");
+        } else {
+            cmd.env_remove("PROFILER_URL");
+        }
         cmd.stdin(Stdio::null()).stdout(Stdio::piped()).stderr(Stdio::null());
         // do not leave servers behind if the harness dies
         unsafe {
@@ -332,6 +341,20 @@ struct ReqOp {
     acrh: Option<String>,
     origin: Option<String>,
     body: Option<Vec<u8>>,
+    /// `c=<k>`: connection number within the case
+    conn: usize,
+    /// `v=1.0`
+    http10: bool,
+    /// `nohost`: no automatic Host header
+    nohost: bool,
+    /// `h=<Name>:<value template>` in op order
+    extra: Vec<(String, String)>,
+    /// `te=chunked`: the body is sent with chunked transfer-encoding
+    chunked: bool,
+    /// `pipe`: written together with the next request of the connection before any response is read
+    pipe: bool,
+    /// header values after template expansion (filled in when the request is sent)
+    acrh_sent: Vec<String>,
 }
 
 fn field(w: &str, pre: &str) -> Option<Option<String>> {
@@ -341,10 +364,10 @@ fn field(w: &str, pre: &str) -> Option<Option<String>> {
 
 fn parse_req(l: &str) -> Option<ReqOp> {
     let w: Vec<&str> = l.split_whitespace().collect();
-    if w.len() != 8 || w[0] != "req" {
+    if w.len() < 8 || w[0] != "req" {
         return None;
     }
-    Some(ReqOp {
+    let mut op = ReqOp {
         cfg: w[1].to_string(),
         method: w[2].to_string(),
         target_tmpl: w[3].to_string(),
@@ -352,7 +375,31 @@ fn parse_req(l: &str) -> Option<ReqOp> {
         acrh: field(w[5], "acrh=")?,
         origin: field(w[6], "origin=")?,
         body: field(w[7], "body=")?.map(|h| unhex(&h)),
-    })
+        conn: 0,
+        http10: false,
+        nohost: false,
+        extra: Vec::new(),
+        chunked: false,
+        pipe: false,
+        acrh_sent: Vec::new(),
+    };
+    for x in &w[8..] {
+        if *x == "v=1.0" {
+            op.http10 = true;
+        } else if *x == "nohost" {
+            op.nohost = true;
+        } else if *x == "te=chunked" {
+            op.chunked = true;
+        } else if *x == "pipe" {
+            op.pipe = true;
+        } else if let Some(k) = x.strip_prefix("c=") {
+            op.conn = k.parse().unwrap_or(0);
+        } else if let Some(nv) = x.strip_prefix("h=") {
+            let (n, v) = nv.split_once(':').unwrap_or((nv, ""));
+            op.extra.push((n.to_string(), v.to_string()));
+        }
+    }
+    Some(op)
 }
 
 fn classify(r: &HttpResp, op: &ReqOp, srv: &Server, stats: &mut Stats) -> String {
@@ -368,7 +415,8 @@ fn classify(r: &HttpResp, op: &ReqOp, srv: &Server, stats: &mut Stats) -> String
     let acao = class("access-control-allow-origin", &|v| if v == "*" { Some("*") } else { None });
     let acam = class("access-control-allow-methods", &|v| if v == "POST, GET, OPTIONS" { Some("std") } else { None });
     let acma = class("access-control-max-age", &|v| if v == "86400" { Some("86400") } else { None });
-    let want = op.acrh.clone();
+    // `echo` = the first Access-Control-Request-Headers value of the request (HeaderMap::get)
+    let want = op.acrh_sent.first().cloned();
     let acah = class("access-control-allow-headers", &|v| if Some(v.to_string()) == want { Some("echo") } else { None });
     let known = [
         "access-control-allow-origin",
@@ -378,6 +426,9 @@ fn classify(r: &HttpResp, op: &ReqOp, srv: &Server, stats: &mut Stats) -> String
     ];
     let extra = r.headers.iter().filter(|(n, _)| n.starts_with("access-control-") && !known.contains(&n.as_str())).count();
     let acx = if extra == 0 { "-".to_string() } else { extra.to_string() };
+    // further response headers that grant something to other origins
+    let xo_n = r.headers.iter().filter(|(n, _)| n == "timing-allow-origin" || n == "cross-origin-resource-policy").count();
+    let xo = if xo_n == 0 { "-".to_string() } else { xo_n.to_string() };
     let text = String::from_utf8_lossy(&r.body);
     let body = if r.body.is_empty() {
         "empty"
@@ -400,12 +451,156 @@ fn classify(r: &HttpResp, op: &ReqOp, srv: &Server, stats: &mut Stats) -> String
     }
     stats.bump(&format!("resp_status_{}", r.status));
     stats.bump(&format!("resp_body_{body}"));
-    if acao != "-" || acam != "-" || acma != "-" || acah != "-" || acx != "-" {
+    if acao != "-" || acam != "-" || acma != "-" || acah != "-" || acx != "-" || xo != "-" {
         stats.bump("resp_with_cors_header");
     } else {
         stats.bump("resp_without_cors_header");
     }
-    format!("r status={} acao={acao} acam={acam} acma={acma} acah={acah} acx={acx} body={body}", r.status)
+    format!("r status={} acao={acao} acam={acam} acma={acma} acah={acah} acx={acx} xo={xo} body={body}", r.status)
+}
+
+/// one connection of a case
+struct ConnState {
+    conn: Option<Conn>,
+    dead: bool,
+    /// requests written whose responses have not been read yet: (output index, request, written ok)
+    pending: Vec<(usize, ReqOp, bool)>,
+    srv: Arc<Server>,
+}
+
+impl ConnState {
+    /// read the responses of all written requests, in order
+    fn flush(&mut self, out: &mut [Option<String>], stats: &mut Stats) {
+        let pending = std::mem::take(&mut self.pending);
+        for (idx, op, wrote) in pending {
+            if self.dead {
+                stats.bump("closed_connection_already_dead");
+                out[idx] = Some("closed".to_string());
+                continue;
+            }
+            let c = self.conn.as_mut().unwrap();
+            // (a failed write: the peer has closed; whatever it sent before is still readable)
+            match c.read_response(op.method == "HEAD") {
+                Ok(r) => {
+                    let conn_hdr = |want: &str| r.headers.iter().any(|(k, v)| k == "connection" && v.eq_ignore_ascii_case(want));
+                    let closes = conn_hdr("close") || (op.http10 && !conn_hdr("keep-alive"));
+                    out[idx] = Some(classify(&r, &op, &self.srv, stats));
+                    if closes {
+                        self.dead = true;
+                    }
+                }
+                Err(ReadErr::Closed) => {
+                    self.dead = true;
+                    stats.bump("closed_without_response");
+                    out[idx] = Some("closed".to_string());
+                }
+                Err(ReadErr::Timeout) => {
+                    self.dead = true;
+                    out[idx] = Some("timeout".to_string());
+                }
+                Err(ReadErr::Malformed) => {
+                    self.dead = true;
+                    out[idx] = Some("malformed-response".to_string());
+                }
+            }
+            if !wrote {
+                self.dead = true;
+            }
+        }
+    }
+}
+
+// ---------------------------------------------------------------------------------------------
+// source anchor of the clause that cannot be observed: where the token's bytes come from
+
+fn strip_rust_comments(src: &str) -> String {
+    let b = src.as_bytes();
+    let mut out = String::new();
+    let mut i = 0;
+    while i < b.len() {
+        if b[i] == b'/' && i + 1 < b.len() && b[i + 1] == b'/' {
+            while i < b.len() && b[i] != b'\n' {
+                i += 1;
+            }
+        } else if b[i] == b'/' && i + 1 < b.len() && b[i + 1] == b'*' {
+            i += 2;
+            while i + 1 < b.len() && !(b[i] == b'*' && b[i + 1] == b'/') {
+                i += 1;
+            }
+            i += 2;
+        } else {
+            out.push(b[i] as char);
+            i += 1;
+        }
+    }
+    out
+}
+
+/// Shape of `fn generate_token` in samply/src/server.rs of the tree the binary under test was built
+/// from (`VERIF_REPO`), with whitespace and comments removed:
+/// `{ let mut B = [0u8; N]; RNG.fill_bytes(&mut B); nix_base32::to_nix_base32(&B) }`.
+fn anchor_generate_token() -> String {
+    let repo = std::env::var("VERIF_REPO").unwrap_or_else(|_| {
+        let root = std::env::var("VERIF_ROOT").unwrap_or_else(|_| ".".to_string());
+        format!("{root}/repo-link")
+    });
+    let pre = "anchor generate_token";
+    let Ok(src) = std::fs::read_to_string(PathBuf::from(&repo).join("samply/src/server.rs")) else {
+        return format!("{pre} fn=unreadable");
+    };
+    let src: String = strip_rust_comments(&src);
+    let flat: String = src.chars().filter(|c| !c.is_whitespace()).collect();
+    let shadow = ["modrand{", "modrand;", "asrand;", "asrand,", "asrand}", "externcraterand", "fnrand(", "macro_rules!rand"]
+        .iter()
+        .any(|p| flat.contains(p))
+        || flat.matches("fngenerate_token(").count() != 1;
+    let shadow = if shadow { "yes" } else { "no" };
+    let Some(start) = flat.find("fngenerate_token()->String{") else {
+        return format!("{pre} fn=missing");
+    };
+    let body_start = start + "fngenerate_token()->String".len();
+    let mut depth = 0i32;
+    let mut end = None;
+    for (k, ch) in flat[body_start..].char_indices() {
+        if ch == '{' {
+            depth += 1;
+        } else if ch == '}' {
+            depth -= 1;
+            if depth == 0 {
+                end = Some(body_start + k);
+                break;
+            }
+        }
+    }
+    let Some(end) = end else {
+        return format!("{pre} fn=changed");
+    };
+    let body = &flat[body_start + 1..end];
+    let changed = format!("{pre} fn=changed");
+    let ident = |s: &str| -> String { s.chars().take_while(|c| c.is_ascii_alphanumeric() || *c == '_').collect() };
+    let Some(r) = body.strip_prefix("letmut") else { return changed };
+    let buf = ident(r);
+    if buf.is_empty() {
+        return changed;
+    }
+    let Some(r) = r[buf.len()..].strip_prefix("=[0u8;") else { return changed };
+    let n: String = r.chars().take_while(|c| c.is_ascii_digit()).collect();
+    let Some(r) = r[n.len()..].strip_prefix("];") else { return changed };
+    let Some((stmt2, stmt3)) = r.split_once(';') else { return changed };
+    let (rng, fill) = if let Some(k) = stmt2.find(".try_fill_bytes(") {
+        let arg_rest = &stmt2[k + ".try_fill_bytes(".len()..];
+        let whole = arg_rest == format!("&mut{buf}).unwrap()") || (arg_rest.starts_with(&format!("&mut{buf}).expect(")) && arg_rest.ends_with(')'));
+        (&stmt2[..k], format!("try_fill_bytes:{}", if whole { "whole" } else { "partial" }))
+    } else if let Some(k) = stmt2.find(".fill_bytes(") {
+        let arg_rest = &stmt2[k + ".fill_bytes(".len()..];
+        let whole = arg_rest == format!("&mut{buf})");
+        (&stmt2[..k], format!("fill_bytes:{}", if whole { "whole" } else { "partial" }))
+    } else {
+        return changed;
+    };
+    let enc = if stmt3 == format!("nix_base32::to_nix_base32(&{buf})") { "to_nix_base32:whole" } else { "other" };
+    let rng: String = rng.chars().map(|c| if c.is_ascii_graphic() { c } else { '?' }).collect();
+    format!("{pre} fn=found buf={n} rng={rng} fill={fill} enc={enc} shadow={shadow}")
 }
 
 // ---------------------------------------------------------------------------------------------
@@ -421,6 +616,81 @@ const HEADER_SETS: [(&str, &str, &str); 6] = [
     ("-", "content-type", "-"),
     ("GET", "*", "null"),
 ];
+/// further origins: the profiler's own origins (default and the PROFILER_URL override of server `e`),
+/// local development servers, the server's own origin
+const ORIGINS: [&str; 10] = [
+    "-",
+    "http://evil.example",
+    "null",
+    "https://profiler.firefox.com",
+    "http://localhost:4242",
+    "http://localhost:3000",
+    "http://127.0.0.1:{PORT}",
+    "http://localhost:{PORT}",
+    "https://deploy-preview-1--perf-html.netlify.app",
+    "http://[::1]:{PORT}",
+];
+/// further request header fields (`+` = space): the token in every place a "second credential channel"
+/// could look for it, proxy / rewrite headers, fetch metadata, private-network preflight, duplicate and
+/// case-varied Access-Control-Request-*, conditional / range requests
+const EXTRA_HEADERS: [&str; 34] = [
+    "h=Authorization:Bearer+{T}",
+    "h=Authorization:Basic+{T}",
+    "h=Referer:http://127.0.0.1:{PORT}/{T}/",
+    "h=Referer:https://profiler.firefox.com/from-url/http%3A%2F%2F127.0.0.1%3A{PORT}%2F{T}%2Fprofile.json",
+    "h=Cookie:token={T}",
+    "h=Cookie:samply={T};+path=/{T}",
+    "h=X-Original-URL:/{T}/profile.json",
+    "h=X-Rewrite-URL:/{T}/symbolicate/v5",
+    "h=X-Forwarded-Prefix:/{T}",
+    "h=X-Forwarded-Uri:/{T}/profile.json",
+    "h=X-Samply-Token:{T}",
+    "h=Token:{T}",
+    "h=Access-Control-Request-Headers:x-second",
+    "h=access-control-request-headers:{T}",
+    "h=ACCESS-CONTROL-REQUEST-METHOD:GET",
+    "h=access-control-request-method:{T}",
+    "h=Access-Control-Request-Private-Network:true",
+    "h=Sec-Fetch-Site:same-origin",
+    "h=Sec-Fetch-Site:cross-site",
+    "h=Sec-Fetch-Mode:cors",
+    "h=Sec-Fetch-Dest:empty",
+    "h=X-Requested-With:XMLHttpRequest",
+    "h=Forwarded:for=127.0.0.1;host=localhost;proto=http",
+    "h=X-Forwarded-For:127.0.0.1",
+    "h=X-Forwarded-Host:localhost:{PORT}",
+    "h=Upgrade-Insecure-Requests:1",
+    "h=Content-Type:application/json",
+    "h=Accept:application/json,*/*;q=0.8",
+    "h=Range:bytes=0-10",
+    "h=If-None-Match:*",
+    "h=User-Agent:Mozilla/5.0+{T}",
+    "h=Connection:keep-alive",
+    "h=Origin:http://localhost:4242",
+    "h=X-HTTP-Method-Override:GET",
+];
+/// the Host header varied (DNS-rebinding shape, token as host, none at all)
+const HOSTS: [&str; 5] = ["nohost", "nohost h=Host:evil.example", "nohost h=Host:{T}", "nohost h=Host:localhost:{PORT}", "nohost h=Host:127.0.0.1:{PORT}+"];
+/// targets of the header / HTTP-shape families: outside the prefix …
+const OUTSIDE_TARGETS: [&str; 14] = [
+    "/",
+    "/profile.json",
+    "/symbolicate/v5",
+    "/prof-x.json.gz",
+    "/prof-x.json",
+    "/?token={T}",
+    "/profile.json?token={T}",
+    "/symbolicate/v5?token={T}&path=/{T}/",
+    "/{U}/profile.json",
+    "/{T:0:38}/profile.json",
+    "//{T}/profile.json",
+    "/{X:0}/symbolicate/v5",
+    "*",
+    "http://localhost:4242/{X:38}/profile.json",
+];
+/// … and under it
+const UNDER_TARGETS: [&str; 6] = ["/{T}/profile.json", "/{T}/symbolicate/v5", "/{T}/", "/{T}/prof-x.json.gz", "/{T}", "http://127.0.0.1:8080/{T}/profile.json"];
+
 const API_SUFFIXES: [&str; 12] = [
     "",
     "/",
@@ -446,6 +716,16 @@ fn req_line(cfg: &str, method: &str, target: &str, hs: (&str, &str, &str), body:
     format!("req {cfg} {method} {target} acrm={} acrh={} origin={} body={b}", hs.0, hs.1, hs.2)
 }
 
+/// `req_line` plus trailing words (`c=<k>`, `v=1.0`, `nohost`, `h=…`, `te=chunked`, `pipe`)
+fn req_line_x(cfg: &str, method: &str, target: &str, hs: (&str, &str, &str), body: Option<&[u8]>, extra: &str) -> String {
+    let l = req_line(cfg, method, target, hs, body);
+    if extra.is_empty() {
+        l
+    } else {
+        format!("{l} {extra}")
+    }
+}
+
 fn default_body(method: &str) -> Option<&'static [u8]> {
     if method == "POST" {
         Some(SYMBOLICATE_BODY.as_bytes())
@@ -468,6 +748,40 @@ fn boundary_targets() -> Vec<String> {
     for s in [
         "/", "/profile.json", "/symbolicate/v5", "/source/v1", "/asm/v1", "/index.html", "//", "/.", "/..", "/?", "/?x=1", "/#", "*",
         "/?{T}", "/?/{T}/profile.json", "/#/{T}/profile.json", "/?path=/{T}/symbolicate/v5",
+    ] {
+        v.push(s.to_string());
+    }
+    // the token as a query parameter; the served file's own name (server `z`: prof-x.json.gz)
+    for s in ["/?token={T}", "/profile.json?token={T}", "/symbolicate/v5?token={T}", "/prof-x.json.gz", "/prof-x.json", "/{T}/prof-x.json.gz", "/{T}/prof-x.json"] {
+        v.push(s.to_string());
+    }
+    // bytes httparse rejects (DEL) although `http::Uri` would take them; non-ASCII; characters `Uri` rejects
+    for s in ["/\u{7f}", "/{T}/\u{7f}", "/{T}\u{7f}/profile.json", "/\u{e9}", "/{T}/\u{e9}", "/{T}/profile.json?\u{e9}", "/{T}/<", "/{T}/profile.json?<", "/{T}/profile.json#<", "/<{T}/profile.json", "/{T}/\"", "/{T}/`"] {
+        v.push(s.to_string());
+    }
+    // absolute-form with other schemes, userinfo, ports, IPv6 literals; what the URI parser rejects
+    for s in [
+        "https://h.example/{T}/profile.json",
+        "HTTPS://h.example/{T}/symbolicate/v5",
+        "ftp://h/{T}/profile.json",
+        "x+y.z-w~://u:p@h:80/{T}/profile.json",
+        "http://[::1]:8080/{T}/profile.json",
+        "http://u%41@h/{T}/profile.json",
+        "://h/{T}/profile.json",
+        "https://{T}/profile.json",
+        "https://h.example//{T}/profile.json",
+        "https://h.example/{U}/profile.json",
+        "https://h.example?/{T}/profile.json",
+        "http:///{T}/profile.json",
+        "http://h%41/{T}/profile.json",
+        "http://h@/{T}/profile.json",
+        "http://a:b:c/{T}/profile.json",
+        "http://[::1/{T}/profile.json",
+        "h:80/{T}/profile.json",
+        "h:80",
+        "//h/{T}/profile.json",
+        "http:/{T}/profile.json",
+        "mailto:{T}",
     ] {
         v.push(s.to_string());
     }
@@ -524,7 +838,7 @@ fn boundary_targets() -> Vec<String> {
     v
 }
 
-const GARBAGE: &[u8] = b"abcxyzABCXYZ0189-._~!$&'()*+,;=:@%/|\\[]^";
+const GARBAGE: &[u8] = b"abcxyzABCXYZ0189-._~!$&'()*+,;=:@%/|\\[]^<>\"`";
 
 fn random_target(rng: &mut Rng) -> String {
     if rng.chance(1, 4) {
@@ -562,6 +876,8 @@ fn random_target(rng: &mut Rng) -> String {
     let pre = *rng.pick(&[
         "/", "/", "/", "/", "/", "//", "/./", "/../", "/x/", "/x/../", "/%2f", "/%2e%2e/", "/?", "/#", "/?p=/", "/;", "", "http://h.example/",
         "http://h.example", "http://h.example?", "http://h.example//", "/profile.json/", "/symbolicate/v5/", "/\\", "/*",
+        "https://h.example/", "HTTP://h.example/", "hTTps://h/", "ftp://h/", "x+y.z-w~://u:p@h:80/", "http://[::1]:8080/", "http://u@h/", "://h/", "http:///",
+        "http://h:1:2/", "http://h%41/", "http://u%41@h/", "h:80/", "//h/", "http://h@/", "http:/", "/\u{e9}/", "http://h\u{e9}/",
     ]);
     let suf = match rng.below(8) {
         0..=4 => rng.pick(&API_SUFFIXES).to_string(),
@@ -610,24 +926,69 @@ fn random_target(rng: &mut Rng) -> String {
     sanitize(t)
 }
 
-/// Keep the request-target inside the forms whose reading by the `http` crate the model describes
-/// (origin-form, `*`, `http://authority[/path]`, bare authority, `authority/…` = rejected): the
-/// authority part must be plain `[A-Za-z0-9.-]+`, otherwise the target is turned into origin-form.
+/// The model follows `http::Uri::from_shared` for every request-target, so nothing is filtered any more;
+/// only an empty target (not expressible in an op line) is replaced.
 fn sanitize(t: String) -> String {
-    if t.starts_with('/') || t == "*" {
-        return t;
-    }
-    let probe = expand("t0ken", &t);
-    let rest = probe.strip_prefix("http://").unwrap_or(&probe);
-    let auth: &str = rest.split(|c| c == '/' || c == '?' || c == '#').next().unwrap_or("");
-    let plain = !auth.is_empty() && auth.bytes().all(|b| b.is_ascii_alphanumeric() || b == b'.' || b == b'-');
-    // a bare authority followed by `?`/`#` is not one of the described forms either
-    let bare_ok = probe.starts_with("http://") || !rest[auth.len()..].starts_with(|c| c == '?' || c == '#');
-    if plain && bare_ok && !t.contains('%') {
-        t
+    if t.is_empty() {
+        "/".to_string()
     } else {
-        format!("/{t}")
+        t
     }
+}
+
+// ---------------------------------------------------------------------------------------------
+// `uri` ops: byte strings for the in-process comparison of `pathOfTarget` with `http::Uri`
+
+const URI_SCHEMES: [&[u8]; 16] = [b"http", b"https", b"HTTP", b"hTtPs", b"Http", b"ftp", b"a+b.c-d~", b"x", b"", b"1", b"ht tp", b"h\xc3\xa9", b"%", b"htt", b"httpss", b"h_"];
+const URI_SEPS: [&[u8]; 8] = [b"://", b"://", b"://", b":/", b":", b"//", b":///", b""];
+const URI_AUTHS: [&[u8]; 30] = [
+    b"h", b"h.example", b"h:80", b"u:p@h:80", b"u%41:p@h", b"h%41", b"[::1]", b"[::1]:80", b"[::1", b"::1]", b"[[::1]]", b"a:b:c",
+    b"[1:2:3:4:5:6:7:8]:80", b"1:2:3:4:5:6:7:8:9", b"[1:2:3:4:5:6:7:8:9]", b"u@", b"@h", b"u@h@i", b"", b"h\xc3\xa9", b"h<", b"h\\", b"h^", b"h_", b"h~!$&'()*+,;=",
+    b"[%41]", b"%41@[::1]", b"[::1]%41", b"u:p:q@h", b"0123456789abcdfghijklmnpqrsvwxyz0123456",
+];
+const URI_PATHS: [&[u8]; 14] = [b"", b"/", b"/tok/profile.json", b"//", b"/a b", b"/%2f", b"/\"{}", b"/<", b"/`", b"/|~^[]\\", b"/\xc3\xa9", b"/\xff", b"/\x7f", b"/*"];
+const URI_QUERIES: [&[u8]; 10] = [b"", b"", b"?", b"?x=1", b"?\"", b"?<", b"?{}`|", b"??", b"?\xc3\xa9", b"? "];
+const URI_FRAGS: [&[u8]; 6] = [b"", b"", b"#", b"#f", b"#\xff\xfe", b"# sp?/"];
+
+fn random_uri_bytes(rng: &mut Rng) -> Vec<u8> {
+    let mut v: Vec<u8> = Vec::new();
+    match rng.below(10) {
+        0 | 1 => {
+            // short strings over the characters the parser distinguishes
+            let alpha: [&[u8]; 14] = [b":", b"/", b"?", b"#", b"@", b"[", b"]", b"%", b"a", b"*", b"\xc3\xa9", b" ", b"h", b"."];
+            for _ in 0..rng.range(0, 12) {
+                v.extend_from_slice(*rng.pick(&alpha[..]));
+            }
+        }
+        2 => {
+            // origin-form with arbitrary bytes
+            v.push(b'/');
+            for _ in 0..rng.range(0, 16) {
+                v.push(if rng.chance(1, 6) { rng.below(256) as u8 } else { *rng.pick(GARBAGE) });
+            }
+        }
+        _ => {
+            if rng.chance(5, 6) {
+                v.extend_from_slice(*rng.pick(&URI_SCHEMES[..]));
+                v.extend_from_slice(*rng.pick(&URI_SEPS[..]));
+            }
+            v.extend_from_slice(*rng.pick(&URI_AUTHS[..]));
+            v.extend_from_slice(*rng.pick(&URI_PATHS[..]));
+            v.extend_from_slice(*rng.pick(&URI_QUERIES[..]));
+            v.extend_from_slice(*rng.pick(&URI_FRAGS[..]));
+        }
+    }
+    if !v.is_empty() && rng.chance(1, 5) {
+        let i = rng.below(v.len() as u64) as usize;
+        match rng.below(3) {
+            0 => v[i] = rng.below(256) as u8,
+            1 => {
+                v.remove(i);
+            }
+            _ => v.insert(i, *rng.pick(&b":/?#@[]%. a"[..])),
+        }
+    }
+    v
 }
 
 impl Prop for C18 {
@@ -659,6 +1020,140 @@ impl Prop for C18 {
             for (hi, hs) in HEADER_SETS.iter().enumerate() {
                 let ops = s.iter().map(|(m, t)| req_line("j", m, t, *hs, None)).collect();
                 v.push(Case { name: format!("seq{i}-h{hi}"), ops });
+            }
+        }
+        // the source anchor of the RNG clause
+        v.insert(0, Case { name: "anchor".to_string(), ops: vec!["anchor generate_token".to_string()] });
+        // several connections open at the same time: nothing a request under the prefix does on one
+        // connection opens anything on another one or later on the same one (self-contained replay of a
+        // process-wide "authorised" state)
+        let h0 = HEADER_SETS[0];
+        for cfg in ["j", "z", "e"] {
+            v.push(Case {
+                name: format!("xconn-{cfg}-a"),
+                ops: vec![
+                    req_line_x(cfg, "GET", "/{T}/profile.json", h0, None, "c=0"),
+                    req_line_x(cfg, "GET", "/profile.json", HEADER_SETS[1], None, "c=1"),
+                    req_line_x(cfg, "GET", "/profile.json", h0, None, "c=0"),
+                    req_line_x(cfg, "OPTIONS", "/{T}/symbolicate/v5", HEADER_SETS[3], None, "c=2"),
+                    req_line_x(cfg, "OPTIONS", "/symbolicate/v5", HEADER_SETS[3], None, "c=1"),
+                    req_line_x(cfg, "GET", "/", h0, None, "c=3"),
+                    req_line_x(cfg, "POST", "/{T}/symbolicate/v5", HEADER_SETS[1], default_body("POST"), "c=2"),
+                    req_line_x(cfg, "POST", "/symbolicate/v5", HEADER_SETS[1], default_body("POST"), "c=1"),
+                    req_line_x(cfg, "GET", "/prof-x.json.gz", h0, None, "c=0"),
+                ],
+            });
+            v.push(Case {
+                name: format!("xconn-{cfg}-b"),
+                ops: vec![
+                    req_line_x(cfg, "POST", "/{T}/symbolicate/v5", h0, default_body("POST"), "c=1"),
+                    req_line_x(cfg, "GET", "/symbolicate/v5", h0, None, "c=0"),
+                    req_line_x(cfg, "POST", "/symbolicate/v5", h0, default_body("POST"), "c=0"),
+                ],
+            });
+        }
+        // header families: every further header / origin / Host variation alone, on targets outside and
+        // under the prefix, for the main methods
+        let mut hk = 0usize;
+        let all_targets: Vec<&str> = OUTSIDE_TARGETS.iter().chain(UNDER_TARGETS.iter()).copied().collect();
+        let extras: Vec<String> = EXTRA_HEADERS.iter().map(|s| s.to_string()).chain(HOSTS.iter().map(|s| s.to_string())).collect();
+        for (ti, t) in all_targets.iter().enumerate() {
+            for (mi, m) in ["GET", "POST", "OPTIONS", "HEAD"].iter().enumerate() {
+                for (xi, x) in extras.iter().enumerate() {
+                    // quick: every (target, extra) pair once with a rotating method, OPTIONS always for the
+                    // Access-Control-Request-* duplicates; thorough: the full product
+                    let acr = x.to_ascii_lowercase().contains("access-control-request");
+                    if tier == Tier::Quick && !(mi == (ti + xi) % 4 || (*m == "OPTIONS" && acr)) {
+                        continue;
+                    }
+                    hk += 1;
+                    let hs = if acr && hk % 2 == 0 { HEADER_SETS[3] } else { HEADER_SETS[hk % HEADER_SETS.len()] };
+                    let cfg = ["j", "e", "z", "j"][hk % 4];
+                    v.push(Case { name: format!("hx{ti}-{m}-{xi}"), ops: vec![req_line_x(cfg, m, t, hs, default_body(m), x)] });
+                }
+                for (oi, o) in ORIGINS.iter().enumerate() {
+                    if tier == Tier::Quick && mi != (ti + oi) % 4 && *m != "OPTIONS" {
+                        continue;
+                    }
+                    hk += 1;
+                    let acr = [("-", "-"), ("POST", "content-type"), ("GET", "-")][hk % 3];
+                    let cfg = ["e", "j", "z"][hk % 3];
+                    v.push(Case { name: format!("ho{ti}-{m}-{oi}"), ops: vec![req_line(cfg, m, t, (acr.0, acr.1, o), default_body(m))] });
+                }
+            }
+        }
+        // several credential-channel headers at once, token everywhere but in the path
+        for (ti, t) in OUTSIDE_TARGETS.iter().enumerate() {
+            for m in ["GET", "POST", "OPTIONS"] {
+                let x = "h=Authorization:Bearer+{T} h=Referer:http://127.0.0.1:{PORT}/{T}/ h=Cookie:token={T} h=X-Original-URL:/{T}/profile.json h=X-Samply-Token:{T} h=access-control-request-headers:{T}";
+                v.push(Case { name: format!("hall{ti}-{m}"), ops: vec![req_line_x("j", m, t, ("POST", "x-first", "http://localhost:4242"), default_body(m), x)] });
+            }
+        }
+        // HTTP shapes: HTTP/1.0 with and without Host / keep-alive, chunked bodies, pipelining, CONNECT,
+        // long request-targets
+        for (ti, t) in all_targets.iter().enumerate() {
+            for m in ["GET", "POST", "OPTIONS", "HEAD", "CONNECT", "TRACE"] {
+                for (si, shape) in ["v=1.0", "v=1.0 nohost", "v=1.0 h=Connection:keep-alive", "v=1.0 nohost h=Connection:close"].iter().enumerate() {
+                    if tier == Tier::Quick && (ti + si) % 2 == 1 && m != "GET" {
+                        continue;
+                    }
+                    v.push(Case { name: format!("v10-{ti}-{m}-{si}"), ops: vec![req_line_x("j", m, t, HEADER_SETS[(ti + si) % 6], default_body(m), shape)] });
+                }
+            }
+            for m in ["POST", "PUT"] {
+                for body in [SYMBOLICATE_BODY.as_bytes(), &b"{\"a\":\"\xc3\xa4\xc3\xa4\"}"[..], &b"\xff\xfe"[..], &b""[..]] {
+                    let b = if body.is_empty() { None } else { Some(body) };
+                    v.push(Case { name: format!("chunk-{ti}-{m}-{}", v.len()), ops: vec![req_line_x("j", m, t, HEADER_SETS[1], b, "te=chunked")] });
+                }
+            }
+        }
+        // HTTP/1.0 keep-alive sequences and client-side `Connection: close` in the middle of a connection
+        v.push(Case {
+            name: "v10-seq".to_string(),
+            ops: vec![
+                req_line_x("j", "GET", "/profile.json", h0, None, "v=1.0 h=Connection:keep-alive"),
+                req_line_x("j", "GET", "/{T}/symbolicate/v5", h0, None, "v=1.0 h=Connection:Keep-Alive"),
+                req_line_x("j", "OPTIONS", "/symbolicate/v5", HEADER_SETS[3], None, "v=1.0 h=Connection:keep-alive"),
+                req_line_x("j", "GET", "/", h0, None, "v=1.0"),
+                req_line_x("j", "GET", "/{T}/profile.json", h0, None, ""),
+            ],
+        });
+        v.push(Case {
+            name: "v10-seq2".to_string(),
+            ops: vec![
+                req_line_x("j", "GET", "/{T}/profile.json", h0, None, "v=1.0 h=Connection:keep-alive"),
+                req_line_x("j", "GET", "/profile.json", h0, None, "v=1.0 h=Connection:keep-alive"),
+            ],
+        });
+        v.push(Case {
+            name: "close-seq".to_string(),
+            ops: vec![
+                req_line_x("j", "GET", "/profile.json", h0, None, "c=0 h=Connection:close"),
+                req_line_x("j", "GET", "/", h0, None, "c=0"),
+                req_line_x("j", "GET", "/{T}/profile.json", h0, None, "c=1 h=Connection:CLOSE"),
+                req_line_x("j", "GET", "/profile.json", h0, None, "c=1"),
+            ],
+        });
+        // pipelining: all requests of the connection are written before the first response is read
+        let pipes: [&[(&str, &str)]; 4] = [
+            &[("GET", "/{T}/profile.json"), ("GET", "/profile.json"), ("GET", "/")],
+            &[("OPTIONS", "/{T}/symbolicate/v5"), ("OPTIONS", "/symbolicate/v5"), ("GET", "/{U}/profile.json"), ("GET", "/{T}/profile.json")],
+            &[("GET", "/profile.json"), ("GET", "{T}/x"), ("GET", "/{T}/profile.json")],
+            &[("HEAD", "/{T}/profile.json"), ("GET", "/prof-x.json.gz"), ("POST", "/symbolicate/v5")],
+        ];
+        for (i, s) in pipes.iter().enumerate() {
+            for (hi, hs) in HEADER_SETS.iter().enumerate() {
+                let n = s.len();
+                let ops = s.iter().enumerate().map(|(k, (m, t))| req_line_x(if hi % 2 == 0 { "j" } else { "z" }, m, t, *hs, if k + 1 == n { default_body(m) } else { None }, if k + 1 == n { "" } else { "pipe" })).collect();
+                v.push(Case { name: format!("pipe{i}-h{hi}"), ops });
+            }
+        }
+        // request-targets longer than 8 KiB
+        // (`e` is not in the token alphabet: a partial token followed by it is never the token)
+        let long: String = "e".repeat(9000);
+        for t in [format!("/{long}"), format!("/{long}/{{T}}/profile.json"), format!("/{{T}}/{long}"), format!("/?{long}{{T}}"), format!("/{{T:0:38}}{long}")] {
+            for m in ["GET", "POST", "OPTIONS"] {
+                v.push(Case { name: format!("long-{m}-{}", v.len()), ops: vec![req_line("j", m, &t, HEADER_SETS[3], default_body(m))] });
             }
         }
         let targets = boundary_targets();
@@ -711,9 +1206,82 @@ impl Prop for C18 {
         for (i, chunk) in enc.chunks(20).enumerate() {
             v.push(Case { name: format!("enc{i}"), ops: chunk.to_vec() });
         }
+        // `http::Uri` in-process: every string of up to 3 pieces over the characters the parser
+        // distinguishes; every byte value in scheme, authority, path, query and fragment position;
+        // scheme lengths around MAX_SCHEME_LEN; colon counts around MAX_COLONS; the request-target forms
+        let mut uri: Vec<Vec<u8>> = Vec::new();
+        let alpha: [&[u8]; 13] = [b":", b"/", b"?", b"#", b"@", b"[", b"]", b"%", b"a", b"*", b"\xc3\xa9", b" ", b"."];
+        uri.push(Vec::new());
+        for a in alpha {
+            uri.push(a.to_vec());
+            for b in alpha {
+                uri.push([a, b].concat());
+                for c in alpha {
+                    uri.push([a, b, c].concat());
+                    if tier == Tier::Thorough {
+                        for d in alpha {
+                            uri.push([a, b, c, d].concat());
+                        }
+                    }
+                }
+            }
+        }
+        for b in 0..=255u8 {
+            uri.push(vec![b]);
+            uri.push([&b"/x"[..], &[b], &b"y"[..]].concat());
+            uri.push([&b"/p?x"[..], &[b], &b"y"[..]].concat());
+            uri.push([&b"/p#x"[..], &[b]].concat());
+            uri.push([&b"http://h"[..], &[b], &b"i/p"[..]].concat());
+            uri.push([&b"a"[..], &[b], &b"b://h/p"[..]].concat());
+            uri.push([&b"h"[..], &[b], &b"i"[..]].concat());
+            uri.push([&b"http://u"[..], &[b], &b"@h/p"[..]].concat());
+        }
+        for n in [0usize, 1, 2, 3, 4, 63, 64, 65, 66, 200] {
+            uri.push([&vec![b'a'; n][..], &b"://h/p"[..]].concat());
+            uri.push([&vec![b'a'; n][..], &b":"[..]].concat());
+            uri.push([&vec![b'a'; n][..], &b":/"[..]].concat());
+            uri.push([&vec![b'a'; n][..], &b"://"[..]].concat());
+        }
+        for n in 0..12usize {
+            uri.push([&b"http://"[..], &vec![b':'; n][..], &b"/p"[..]].concat());
+            uri.push([&b"http://["[..], &vec![b':'; n][..], &b"]:80/p"[..]].concat());
+            uri.push([&b"http://u"[..], &vec![b':'; n][..], &b"@h:1/p"[..]].concat());
+            uri.push([&b"h"[..], &vec![b':'; n][..], &b"1"[..]].concat());
+        }
+        for sc in URI_SCHEMES {
+            for sep in [&b"://"[..], &b":/"[..], &b":"[..]] {
+                for au in URI_AUTHS {
+                    for pa in [&b""[..], &b"/tok/profile.json"[..], &b"?q"[..], &b"#f"[..]] {
+                        if tier == Tier::Quick && (sc.len() + au.len() + pa.len()) % 3 != 0 {
+                            continue;
+                        }
+                        uri.push([sc, sep, au, pa].concat());
+                    }
+                }
+            }
+        }
+        for au in URI_AUTHS {
+            for pa in URI_PATHS {
+                for q in URI_QUERIES {
+                    if tier == Tier::Quick && (au.len() + pa.len() + q.len()) % 4 != 0 {
+                        continue;
+                    }
+                    uri.push([&b"http://"[..], au, pa, q].concat());
+                    uri.push([au, pa, q].concat());
+                }
+            }
+        }
+        for (i, chunk) in uri.chunks(60).enumerate() {
+            v.push(Case { name: format!("uri{i}"), ops: chunk.iter().map(|b| format!("uri {}", hex(b))).collect() });
+        }
         v
     }
     fn generate(&self, rng: &mut Rng, _tier: Tier, _index: u64) -> Vec<String> {
+        if rng.chance(1, 8) {
+            // the request-target parser, in-process
+            let n = rng.range(1, 10);
+            return (0..n).map(|_| format!("uri {}", hex(&random_uri_bytes(rng)))).collect();
+        }
         if rng.chance(1, 12) {
             // encoder: mostly the 24 bytes the server draws, sometimes other lengths
             let n = rng.range(1, 8);
@@ -738,6 +1306,8 @@ impl Prop for C18 {
             _ => "j",
         };
         let mut ops = Vec::new();
+        let multi_conn = n > 1 && rng.chance(1, 3);
+        let cfg = if cfg == "j" && rng.chance(1, 6) { "e" } else { cfg };
         for i in 0..n {
             let last = i + 1 == n;
             let method = match rng.below(16) {
@@ -752,7 +1322,7 @@ impl Prop for C18 {
             let hs = if rng.chance(1, 2) {
                 *rng.pick(&HEADER_SETS)
             } else {
-                (*rng.pick(&["-", "POST", "GET", "DELETE"]), *rng.pick(&["-", "content-type", "x-a,x-b", "*"]), *rng.pick(&["-", "http://evil.example", "null"]))
+                (*rng.pick(&["-", "POST", "GET", "DELETE"]), *rng.pick(&["-", "content-type", "x-a,x-b", "*"]), *rng.pick(&ORIGINS))
             };
             // a request body is only sent with the last request of a connection (an unread body makes
             // hyper's keep-alive decision timing-dependent)
@@ -772,25 +1342,62 @@ impl Prop for C18 {
                 None
             };
             let method = if !last && method == "POST" { "GET" } else { method };
-            ops.push(req_line(cfg, method, &target, hs, body.as_deref()));
+            // trailing words: further headers, Host variations, HTTP/1.0, chunked body, pipelining,
+            // several connections
+            let mut extra: Vec<String> = Vec::new();
+            if multi_conn {
+                // the body-carrying last request gets a connection of its own or the last one used
+                extra.push(format!("c={}", if last { 2 } else { rng.below(2) }));
+            }
+            if rng.chance(1, 3) {
+                for _ in 0..rng.range(1, 3) {
+                    extra.push(rng.pick(&EXTRA_HEADERS).to_string());
+                }
+            }
+            if rng.chance(1, 12) {
+                extra.push(rng.pick(&HOSTS).to_string());
+            }
+            if rng.chance(1, 12) {
+                extra.push("v=1.0".to_string());
+                if rng.chance(1, 2) {
+                    extra.push("h=Connection:keep-alive".to_string());
+                }
+            }
+            // (chunked bodies do not exist in HTTP/1.0: hyper answers 400 itself)
+            if !extra.iter().any(|x| x == "v=1.0") && body.as_ref().map(|b| !b.is_empty()).unwrap_or(false) && rng.chance(1, 4) {
+                extra.push("te=chunked".to_string());
+            }
+            if !last && !multi_conn && rng.chance(1, 5) {
+                extra.push("pipe".to_string());
+            }
+            ops.push(req_line_x(cfg, method, &target, hs, body.as_deref(), &extra.join(" ")));
         }
         ops
     }
     fn execute(&self, ops: &[String], stats: &mut Stats) -> Vec<String> {
-        let mut out = Vec::new();
-        let mut conn: Option<Conn> = None;
-        let mut dead = false;
-        let n_req = ops.iter().filter(|l| l.starts_with("req ")).count();
-        let mut seen_req = 0;
+        let mut out: Vec<Option<String>> = Vec::new();
+        let mut conns: HashMap<usize, ConnState> = HashMap::new();
+        // requests per connection (the last one of a connection carries `Connection: close`)
+        let mut n_req: HashMap<usize, usize> = HashMap::new();
+        for l in ops {
+            if l.starts_with("req ") {
+                if let Some(op) = parse_req(l) {
+                    *n_req.entry(op.conn).or_insert(0) += 1;
+                }
+            }
+        }
+        let mut seen_req: HashMap<usize, usize> = HashMap::new();
         for l in ops {
             let w: Vec<&str> = l.split_whitespace().collect();
             match w.first().copied() {
                 Some("req") => {
-                    seen_req += 1;
-                    let Some(op) = parse_req(l) else {
-                        out.push("bad-op".to_string());
+                    let Some(mut op) = parse_req(l) else {
+                        out.push(Some("bad-op".to_string()));
                         continue;
                     };
+                    let idx = out.len();
+                    out.push(None);
+                    *seen_req.entry(op.conn).or_insert(0) += 1;
                     stats.bump(&format!("method_{}", op.method));
                     stats.bump(&format!("cfg_{}", op.cfg));
                     if op.target_tmpl.contains('{') {
@@ -807,77 +1414,115 @@ impl Prop for C18 {
                     if op.origin.is_some() {
                         stats.bump("hdr_origin");
                     }
-                    if dead {
-                        stats.bump("closed_connection_already_dead");
-                        out.push("closed".to_string());
-                        continue;
+                    for (n, v) in &op.extra {
+                        stats.bump(&format!("hdr_extra_{}", n.to_ascii_lowercase()));
+                        if v.contains('{') {
+                            stats.bump("hdr_extra_value_with_token_piece");
+                        }
+                    }
+                    if op.http10 {
+                        stats.bump("http_1_0");
+                    }
+                    if op.nohost {
+                        stats.bump("no_automatic_host");
+                    }
+                    if op.chunked {
+                        stats.bump("chunked_request_body");
+                    }
+                    if op.pipe {
+                        stats.bump("pipelined");
+                    }
+                    if op.conn != 0 {
+                        stats.bump("further_connection_of_the_case");
                     }
                     let srv = self.server(&op.cfg);
-                    if conn.is_none() {
+                    let cs = conns.entry(op.conn).or_insert_with(|| ConnState { conn: None, dead: false, pending: Vec::new(), srv: srv.clone() });
+                    if cs.dead && cs.pending.is_empty() {
+                        stats.bump("closed_connection_already_dead");
+                        out[idx] = Some("closed".to_string());
+                        continue;
+                    }
+                    if cs.conn.is_none() {
                         let s = TcpStream::connect(("127.0.0.1", srv.port)).expect("connect to samply server");
                         s.set_read_timeout(Some(Duration::from_secs(20))).unwrap();
                         s.set_nodelay(true).unwrap();
-                        conn = Some(Conn { stream: s, buf: Vec::new() });
+                        cs.conn = Some(Conn { stream: s, buf: Vec::new() });
                     }
-                    let c = conn.as_mut().unwrap();
+                    let port = srv.port.to_string();
+                    let hv = |tmpl: &str| expand(&srv.token, tmpl).replace('+', " ").replace("{PORT}", &port);
                     let target = expand(&srv.token, &op.target_tmpl);
                     if target.starts_with(&format!("/{}", srv.token)) {
                         stats.bump("target_literally_under_prefix");
                     } else {
                         stats.bump("target_not_literally_under_prefix");
                     }
-                    let mut raw = format!("{} {} HTTP/1.1\r\nHost: 127.0.0.1:{}\r\n", op.method, target, srv.port).into_bytes();
+                    let version = if op.http10 { "HTTP/1.0" } else { "HTTP/1.1" };
+                    let mut raw = format!("{} {} {}\r\n", op.method, target, version).into_bytes();
+                    if !op.nohost {
+                        raw.extend(format!("Host: 127.0.0.1:{}\r\n", srv.port).bytes());
+                    }
                     if let Some(v) = &op.origin {
-                        raw.extend(format!("Origin: {v}\r\n").bytes());
+                        raw.extend(format!("Origin: {}\r\n", v.replace("{PORT}", &port)).bytes());
                     }
                     if let Some(v) = &op.acrm {
                         raw.extend(format!("Access-Control-Request-Method: {v}\r\n").bytes());
                     }
                     if let Some(v) = &op.acrh {
                         raw.extend(format!("Access-Control-Request-Headers: {v}\r\n").bytes());
+                        op.acrh_sent.push(v.clone());
+                    }
+                    let mut explicit_connection = false;
+                    for (n, v) in &op.extra {
+                        let v = hv(v);
+                        raw.extend(format!("{n}: {v}\r\n").bytes());
+                        if n.eq_ignore_ascii_case("access-control-request-headers") {
+                            op.acrh_sent.push(v.clone());
+                        }
+                        if n.eq_ignore_ascii_case("connection") {
+                            explicit_connection = true;
+                        }
                     }
                     let body = op.body.clone().unwrap_or_default();
-                    if op.body.is_some() || op.method == "POST" || op.method == "PUT" {
-                        raw.extend(format!("Content-Length: {}\r\n", body.len()).bytes());
+                    let has_body = op.body.is_some() || op.method == "POST" || op.method == "PUT";
+                    if has_body {
+                        if op.chunked {
+                            raw.extend(b"Transfer-Encoding: chunked\r\n");
+                        } else {
+                            raw.extend(format!("Content-Length: {}\r\n", body.len()).bytes());
+                        }
                     }
-                    if seen_req == n_req {
+                    if seen_req[&op.conn] == n_req[&op.conn] && !explicit_connection {
                         raw.extend(b"Connection: close\r\n");
                     }
                     raw.extend(b"\r\n");
-                    raw.extend(&body);
-                    if c.stream.write_all(&raw).is_err() {
-                        dead = true;
-                        stats.bump("closed_on_write");
-                        out.push("closed".to_string());
-                        continue;
-                    }
-                    match c.read_response(op.method == "HEAD") {
-                        Ok(r) => {
-                            let closes = r.headers.iter().any(|(k, v)| k == "connection" && v.eq_ignore_ascii_case("close"));
-                            out.push(classify(&r, &op, &srv, stats));
-                            if closes {
-                                dead = true;
+                    if has_body && op.chunked {
+                        // two chunks (split in the middle, possibly inside a UTF-8 sequence) and the last-chunk
+                        let mid = body.len() / 2;
+                        for part in [&body[..mid], &body[mid..]] {
+                            if !part.is_empty() {
+                                raw.extend(format!("{:x}\r\n", part.len()).bytes());
+                                raw.extend(part);
+                                raw.extend(b"\r\n");
                             }
                         }
-                        Err(ReadErr::Closed) => {
-                            dead = true;
-                            stats.bump("closed_without_response");
-                            out.push("closed".to_string());
-                        }
-                        Err(ReadErr::Timeout) => {
-                            dead = true;
-                            out.push("timeout".to_string());
-                        }
-                        Err(ReadErr::Malformed) => {
-                            dead = true;
-                            out.push("malformed-response".to_string());
-                        }
+                        raw.extend(b"0\r\n\r\n");
+                    } else {
+                        raw.extend(&body);
+                    }
+                    let wrote = cs.conn.as_mut().unwrap().stream.write_all(&raw).is_ok();
+                    if !wrote {
+                        stats.bump("closed_on_write");
+                    }
+                    let pipe = op.pipe;
+                    cs.pending.push((idx, op, wrote));
+                    if !pipe || !wrote {
+                        cs.flush(&mut out, stats);
                     }
                 }
                 Some("tokens") => {
                     let k: usize = w.get(1).and_then(|s| s.parse().ok()).unwrap_or(2);
                     let mut toks: Vec<String> = Vec::new();
-                    for kind in ["j", "z", "d"] {
+                    for kind in ["j", "z", "d", "e"] {
                         toks.push(self.server(kind).token.clone());
                     }
                     for _ in 0..k {
@@ -896,28 +1541,51 @@ impl Prop for C18 {
                     // position has probability 39 * 32^-6 < 4e-8): catches partly-filled RNG buffers
                     let minlen = lens.iter().copied().min().unwrap_or(0);
                     let varied = minlen > 0 && (0..minlen).all(|i| toks.iter().any(|t| t.as_bytes()[i] != toks[0].as_bytes()[i]));
-                    out.push(format!(
+                    out.push(Some(format!(
                         "tokens distinct={} len={len} alphabet={} varied={}",
                         if distinct { "yes" } else { "no" },
                         if alpha { "ok" } else { "bad" },
                         if varied { "yes" } else { "no" }
-                    ));
+                    )));
+                }
+                Some("anchor") => {
+                    let line = anchor_generate_token();
+                    stats.bump("source_anchor_generate_token");
+                    out.push(Some(line));
+                }
+                Some("uri") => {
+                    // the parser hyper applies to the request-target (hyper 1.6 role.rs:209-212), in-process
+                    let bytes = unhex(w.get(1).copied().unwrap_or("-"));
+                    match http::Uri::try_from(&bytes[..]) {
+                        Ok(u) => {
+                            stats.bump(if u.scheme().is_some() { "uri_absolute_form" } else if u.authority().is_some() { "uri_authority_form" } else { "uri_origin_or_asterisk_form" });
+                            out.push(Some(format!("path {}", hex(u.path().as_bytes()))));
+                        }
+                        Err(_) => {
+                            stats.bump("uri_rejected");
+                            out.push(Some("err".to_string()));
+                        }
+                    }
                 }
                 Some("enc") => {
                     let bytes = unhex(w.get(1).copied().unwrap_or("-"));
                     stats.bump(&format!("enc_len_{}", if bytes.len() == 24 { "24".to_string() } else if bytes.is_empty() { "0".to_string() } else { "other".to_string() }));
                     match std::panic::catch_unwind(|| nix_base32::to_nix_base32(&bytes)) {
-                        Ok(s) => out.push(format!("tok {s}")),
+                        Ok(s) => out.push(Some(format!("tok {s}"))),
                         Err(_) => {
                             stats.bump("enc_panics");
-                            out.push("panic".to_string());
+                            out.push(Some("panic".to_string()));
                         }
                     }
                 }
-                _ => out.push("bad-op".to_string()),
+                _ => out.push(Some("bad-op".to_string())),
             }
         }
-        out
+        // a case may end with a `pipe` request
+        for cs in conns.values_mut() {
+            cs.flush(&mut out, stats);
+        }
+        out.into_iter().map(|o| o.unwrap_or_else(|| "bad-op".to_string())).collect()
     }
     fn nontrivial(&self, ops: &[String], out: &[String]) -> bool {
         // a request that got an answer (or was dropped), a token comparison, or an encoding
@@ -929,7 +1597,7 @@ impl Prop for C18 {
     fn setup(&self, _tier: Tier) {
         // Start the three servers here, on the main thread: PR_SET_PDEATHSIG fires when the *thread*
         // that spawned the child exits, and worker threads end before the run does.
-        for kind in ["j", "z", "d"] {
+        for kind in ["j", "z", "d", "e"] {
             let _ = self.server(kind);
         }
     }
